@@ -2,7 +2,7 @@
     printed in the format of harness/implrun/src/load.rs + dump_gen.rs. *)
 From Coq Require Import Ascii String List Bool NArith ZArith.
 From A2L Require Import Base.Sx Base.StableSort Text.Escape Text.IntText Lex.Tokenizer Lex.Include Gram.Spec A2ml.Types Gram.PState Gram.Parser
-     Gram.Writer Gen.SpecShipped Gen.WriterShipped.
+     Gram.Writer Lib.IfdataCleanup Gen.SpecShipped Gen.WriterShipped.
 Import ListNotations.
 Local Open Scope string_scope.
 
@@ -293,6 +293,40 @@ Definition run_loadinc (x : sx) : sx :=
                       | (RPanic site, _) => SL [SS "PANIC"; SS site]
                       | (RFuel, _) => SL [SS "FUEL"]
                       end
+                  end
+              end
+          end
+      | _, _, _ => bad_case
+      end
+  | _ => bad_case
+  end.
+
+(* ---------- LOADCLEAN: the text written after ifdata_cleanup() (C18) ----------
+   case as LOAD with the A2ML tables; answer ( sOK text ) | as LOAD otherwise *)
+Definition run_loadclean (x : sx) : sx :=
+  match x with
+  | SL [SS text; SZ strict; _; _; SL ftab; SL a2mltab; SL builtin] =>
+      match opt_map_all dec_fentry ftab, opt_map_all dec_a2ml_entry a2mltab, opt_map_all dec_parsed builtin with
+      | Some tab, Some oracle, Some bi =>
+          match tokenize_core 0 (list_ascii_of_string text) with
+          | TErr e => SL [SS "ERR"; tokerr_sx e]
+          | TPanic s => SL [SS "PANIC"; SS s]
+          | TFuel => SL [SS "FUEL"]
+          | TOk toks =>
+              if has_include toks then SL [SS "UNSUPPORTED"; SS "include"] else
+              match toks, bi with
+              | [], _ => SL [SS "ERR"; SL [SS "Other"; SS "EmptyFileError"]]
+              | _, [(None, _)] => SL [SS "ERR"; SL [SS "Other"; SS "InvalidBuiltinA2mlSpec"]]
+              | _, _ =>
+                  let names := [[]] in
+                  let specs := flat_map (fun p => match fst p with Some t => [t] | None => [] end) bi in
+                  match parse_file spec_shipped (init_state_a2ml toks (negb (strict =? 0)%Z) 1 tab specs oracle) with
+                  | (ROk v, s) =>
+                      let fuel := S (S (length toks)) in
+                      SL [SS "OK"; sb (write_node spec_shipped posr_shipped tab names fuel (cleanup_value fuel v) 0)]
+                  | (RErr d, _) => SL [SS "ERR"; enc_diag names d]
+                  | (RPanic site, _) => SL [SS "PANIC"; SS site]
+                  | (RFuel, _) => SL [SS "FUEL"]
                   end
               end
           end
